@@ -61,13 +61,23 @@ def runtime_warning(rng):
     try:
         p = os.path.join(d, "w.hera")
         open(p, "w").write("\n".join(lines) + "\n")
-        exc, out, err = fc.run_main(["--no-color", p])
+        # plain, throttled (both spellings) and with the return-address warning as the faulting operation
+        argvs = [["--no-color", p], ["--no-color", "--throttle", "1000", p], ["--no-color", "--throttle=50", p]]
+        argv = rng.choice(argvs)
+        exc, out, err = fc.run_main(argv)
+        p2 = os.path.join(d, "r.hera")
+        lines2 = pre + ["SET(R13, 2)", "RETURN(R12, R13)", "HALT()"]
+        open(p2, "w").write("\n".join(lines2) + "\n")
+        exc2, out2, err2 = fc.run_main(argv[:-1] + [p2])
     finally:
         shutil.rmtree(d, ignore_errors=True)
+    how = " ".join(argv[:-1])
     if "stack has overflowed" not in err:
-        return "no stack warning at all: %r" % err[:200]
+        return "hera %s: no stack warning at all: %r" % (how, err[:200])
     if "line %d " % want not in err:
-        return "the run-time warning for line %d says: %r" % (want, err.split("\n")[0][:200])
+        return "hera %s: the run-time warning for line %d says: %r" % (how, want, err.split("\n")[0][:200])
+    if "incorrect return address" in err2 and "line %d " % (len(pre) + 2) not in err2:
+        return "hera %s: the return-address warning of the RETURN on line %d says: %r" % (how, len(pre) + 2, err2.split("\n")[0][:200])
     return None
 
 
